@@ -18,6 +18,8 @@ import (
 	"verifsim/ops"
 	"verifsim/service"
 	"verifsim/tape"
+
+	"worldcoin/gnark-mbu/prover"
 )
 
 // The uncontrolled companion mode (DESIGN 6.C13): the real server under `go build -race` with
@@ -42,6 +44,7 @@ type raceOut struct {
 }
 
 type raceRun struct {
+	crash   string
 	reqs    [][]*service.Request
 	out     raceOut
 	raceLog string
@@ -66,6 +69,11 @@ func (c *svc) runRace(x *engine.Ctx, t *tape.Tape, weights [6]int) *raceRun {
 		panic(err)
 	}
 	f.Close()
+	// the scenario presupposes that the keys file loads back as the same system (C11 decides that)
+	if ps2, err := prover.ReadSystemFromFile(keys); err != nil || ps2.TreeDepth != c.sys.PS.TreeDepth || ps2.BatchSize != c.sys.PS.BatchSize {
+		x.S.Count("probe:race_mode_skipped_keys_file_does_not_reload")
+		return nil
+	}
 	gen := &service.Gen{T: t, Sys: c.sys}
 	rr := &raceRun{}
 	type spec struct {
@@ -141,6 +149,17 @@ func (c *svc) runRace(x *engine.Ctx, t *tape.Tape, weights [6]int) *raceRun {
 		}
 	}
 	if rr.exit != 0 && rr.exit != 66 {
+		// the server process died: a Go runtime fatal error (e.g. concurrent map writes) or a panic in a
+		// repository goroutine is a finding of the uncontrolled mode; anything else is machinery trouble
+		out := eb.String()
+		if i := strings.Index(out, "fatal error: "); i >= 0 && strings.Contains(out, "worldcoin/gnark-mbu/") {
+			rr.crash = firstLine(out[i:])
+			return rr
+		}
+		if i := strings.Index(out, "panic: "); i >= 0 && strings.Contains(out[i:], "worldcoin/gnark-mbu/") {
+			rr.crash = firstLine(out[i:])
+			return rr
+		}
 		panic(fmt.Sprintf("racecheck exited with %d: %s", rr.exit, ops.Tail(eb.Bytes(), 1500)))
 	}
 	ob, err := os.ReadFile(outPath)
@@ -200,7 +219,13 @@ func (c *C13) raceScenario0(x *engine.Ctx) *engine.Violation {
 		panic("VERIF_RACE_BIN not set")
 	}
 	rr := c.runRace(x, x.T, [6]int{3, 2, 1, 2, 0, 1})
+	if rr == nil {
+		return nil
+	}
 	x.S.Count("fault:uncontrolled/free-running-concurrent-requests-under-race-detector")
+	if rr.crash != "" {
+		return engine.Violatef("C13/race-mode/server-process-crashed", "uncontrolled mix: the server process died under concurrent requests: %s", rr.crash)
+	}
 	n := 0
 	for _, round := range rr.reqs {
 		n += len(round)
@@ -317,7 +342,13 @@ func (c *C20) raceScenario0(x *engine.Ctx) *engine.Violation {
 		panic("VERIF_RACE_BIN not set")
 	}
 	rr := c.runRace(x, x.T, [6]int{2, 2, 1, 3, 1, 4})
+	if rr == nil {
+		return nil
+	}
 	x.S.Count("fault:uncontrolled/free-running-concurrent-requests-with-overlapping-scrapes")
+	if rr.crash != "" {
+		return nil // a crash under concurrency is C13's finding, not a metrics one
+	}
 	var ops []porcupine.Operation
 	id := 0
 	tally := map[string]int{}
